@@ -1,5 +1,7 @@
 (* C03 — every hand-off is a happens-before edge under the DECLARED memory orders.
-   Statements only; proofs in Proof/HbProof.v and Proof/SitesPinned.v. *)
+   Statements only; proofs in Proof/HbProof.v and Proof/SitesPinned.v.
+   Continued in Props/Properties_C03b.v (once, counter, note) and Props/Properties_C03c.v (mutex + nsync_mu_wait incl.
+   the two release STORES of mu_wait.c; agreement of the ATM_* macro orders of the real atomic headers with the harness). *)
 From NsyncBase Require Import CSem.
 From NsyncGen Require Import Consts Sites.
 From NsyncModel Require Import MuModel HbModel SitesExpected.
@@ -7,14 +9,13 @@ From NsyncProof Require Import SitesPinned HbProof.
 From Coq Require Import List ZArith String.
 Import ListNotations.
 Local Open Scope Z_scope.
-(* EDIT (HbProof agent): the string literals of C03_publication_orders had no scope ("No interpretation for string");
-   opening string_scope is the only change, the statements are untouched. *)
 Local Open Scope string_scope.
 
 (* Mutex hand-off, for ANY number of threads, programs and schedules: whatever a thread had in its view when it
    released the mutex (unlock, runlock, including the early release inside unlock_slow) is contained in the view of
    every thread that acquires it later (lock, rlock, trylock, rtrylock, lock_slow) -- computed from the memory orders
-   the source requests at each site, nothing else. *)
+   the source requests at each site, nothing else.  (MuModel = mu.c alone; the same with nsync_mu_wait,
+   nsync_mu_unlock_without_wakeup and the back-out stores of mu_wait.c: C03_muwait_handoff in Properties_C03c.v.) *)
 Theorem C03_mutex_handoff : forall progs sched i j oi oj,
   let tr := run_hb (init progs) hb0 sched in
   nth_error tr i = Some oi -> nth_error tr j = Some oj -> (i < j)%nat ->
@@ -22,34 +23,103 @@ Theorem C03_mutex_handoff : forall progs sched i j oi oj,
   vle (o_view oi) (o_view oj).
 Proof. exact mutex_handoff. Qed.
 
-(* what the proof rests on, stated against the regenerated inventory: every site that takes the lock asks for acquire,
-   every site that gives it up asks for release, and nothing writes the word except by compare-and-swap *)
+(* the hypotheses are met: thread 0 locks (step 0) and unlocks (step 1: a release), thread 1 locks (step 2: an acquire
+   by ANOTHER thread); thread 0's epoch at the release (2) is in thread 1's view after its acquire *)
+Example C03_mutex_handoff_example :
+  let tr := run_hb (init [[OLock W; OUnlock]; [OLock W]]) hb0 [0; 0; 1]%nat in
+  exists oi oj,
+    nth_error tr 1 = Some oi /\ nth_error tr 2 = Some oj /\ is_release oi /\ is_acquire oj /\
+    o_t oi = 0%nat /\ o_t oj = 1%nat /\ o_view oi 0%nat = 2 /\ o_view oj 0%nat = 2 /\ o_view oj 1%nat = 1.
+Proof.
+  intros tr.
+  assert (H : match nth_error tr 1, nth_error tr 2 with
+              | Some oi, Some oj =>
+                  is_release oi /\ is_acquire oj /\ o_t oi = 0%nat /\ o_t oj = 1%nat /\
+                  o_view oi 0%nat = 2 /\ o_view oj 0%nat = 2 /\ o_view oj 1%nat = 1
+              | _, _ => False
+              end).
+  { vm_compute. repeat split; try reflexivity; discriminate. }
+  destruct (nth_error tr 1) as [oi|]; [|contradiction].
+  destruct (nth_error tr 2) as [oj|]; [|contradiction].
+  exists oi, oj. split; [reflexivity|]. split; [reflexivity|]. exact H.
+Qed.
+
+(* what the hand-off proof of MuModel rests on, on the regenerated inventory of mu.c: every site at which the model takes
+   the lock is a compare-and-swap on `word.mu' that asks for acquire, every site at which it gives it up one that asks
+   for release ([order_of k s] is relaxed unless site s IS an access of kind k to `word.mu') *)
 Theorem C03_mutex_orders :
-  Forall (fun s => has_acq (order_of s) = true) [101; 103; 201; 203; 301; 303; 401; 403; 502] /\
-  Forall (fun s => has_rel (order_of s) = true) [701; 703; 801; 803; 902; 903; 905; 602] /\
-  Forall (fun x => s_target x = "word.mu"%string -> s_kind x <> Kstore)
-         (filter (fun x => negb (String.eqb (s_fn x) "nsync_mu_init")) sites_mu_c).
+  Forall (fun s => has_acq (order_of Kcas s) = true) [101; 103; 201; 203; 301; 303; 401; 403; 502] /\
+  Forall (fun s => has_rel (order_of Kcas s) = true) [701; 703; 801; 803; 902; 903; 905; 602].
 Proof. exact mutex_orders. Qed.
 
-(* the other hand-offs named by the property: the publishing site asks for release, every observing site for acquire
-   (once word, note flag, counter value, waiter `waiting` flag used by signal/broadcast/unlock wake-ups) *)
+(* Every WRITE to the word of an nsync_mu in ANY file of the inventory ([all_sites]: common.c, counter.c, cv.c, debug.c,
+   mu.c, mu_wait.c, note.c, the futex semaphore, once.c, per_thread_waiter.c, sem_wait.c, wait.c; a mutex word is
+   `mu->word', `pmu->word' or `cv_mu->word', or the parameter of nsync_spin_test_and_set_):
+   1. it is a compare-and-swap, EXCEPT exactly two plain stores: sites 8 and 9 of mu_try_acquire_after_timeout_or_cancel
+      (mu_wait.c:106 and :111), and both ask for release.  (Why these two stores do not cut the release sequence of the
+      word is proved on the model: C03_muwait_handoff.)
+   2. every write that gives up lock bits and / or the queue spinlock ([mu_word_releasing], 16 sites, each of them
+      present) asks for release;
+   3. every write that takes lock bits and / or the spinlock ([mu_word_acquiring], 15 sites, each present) asks for acquire;
+   4. the two lists cover every write: no relaxed write to a mutex word exists;
+   5. nothing escapes the classification by its name: every site whose target is a `word' field is on a mutex word or
+      on a condition variable's word, and nsync_spin_test_and_set_ accesses nothing but its parameter. *)
+Theorem C03_mutex_word_writes :
+  map (fun x => (s_fn x, s_ord x, s_order x)) (filter (is_kind Kstore) mu_word_writes) =
+    [("mu_try_acquire_after_timeout_or_cancel", 8%nat, Orel); ("mu_try_acquire_after_timeout_or_cancel", 9%nat, Orel)] /\
+  map site_id (filter (id_in mu_word_releasing) mu_word_writes) = mu_word_releasing /\
+  Forall (fun x => has_rel (s_order x) = true) (filter (id_in mu_word_releasing) mu_word_writes) /\
+  map site_id (filter (id_in mu_word_acquiring) mu_word_writes) = mu_word_acquiring /\
+  Forall (fun x => has_acq (s_order x) = true) (filter (id_in mu_word_acquiring) mu_word_writes) /\
+  Forall (fun x => id_in mu_word_releasing x || id_in mu_word_acquiring x = true) mu_word_writes /\
+  Forall (fun x => word_target x = true -> on_mu_word x || on_cv_word x = true) all_sites /\
+  Forall (fun x => String.eqb (s_fn x) "nsync_spin_test_and_set_" = true -> String.eqb (s_target x) "w" = true) all_sites.
+Proof. exact mutex_word_writes. Qed.
+
+(* the other hand-offs named by the property, each looked up in the REGENERATED list of its file with its kind and its
+   target ([order_at] is relaxed unless the site exists, has that kind and that target): the publishing site asks for
+   release, every observing site for acquire *)
 Theorem C03_publication_orders :
   (* nsync_run_once_impl: ATM_STORE_REL (once, 2) vs. every ATM_LOAD_ACQ (once) that lets a caller return *)
-  In ("nsync_run_once_impl", 4%nat, Kstore, Orel, "once") expected_once_c /\
-  In ("nsync_run_once_impl", 5%nat, Kload, Oacq, "once") expected_once_c /\
-  In ("nsync_run_once", 1%nat, Kload, Oacq, "once") expected_once_c /\
-  (* note: the flag is set with release and read with acquire *)
-  In ("note_notify_child", 2%nat, Kstore, Orel, "notified.n") expected_note_c /\
-  In ("nsync_note_notified_deadline_", 1%nat, Kload, Oacq, "notified.n") expected_note_c /\
-  (* counter: the decrement is an acq_rel RMW, waiters' and readers' loads are acquire *)
-  In ("nsync_counter_add", 3%nat, Kcas, Oacqrel, "value.c") expected_counter_c /\
-  In ("nsync_counter_value", 1%nat, Kload, Oacq, "value.c") expected_counter_c /\
-  (* wake-ups: waiting := 0 with release, the sleeper's re-check with acquire *)
-  In ("nsync_mu_unlock_slow_", 7%nat, Kstore, Orel, "waiting.nsync_dll_nsync_waiter_.p") expected_mu_c /\
-  In ("nsync_mu_lock_slow_", 5%nat, Kload, Oacq, "waiting.nw.w") expected_mu_c.
+  has_rel (order_at sites_once_c "nsync_run_once_impl" 4 Kstore "once") = true /\
+  Forall (fun f => has_acq (order_at sites_once_c (fst f) (snd f) Kload "once") = true)
+         [("nsync_run_once_impl", 1%nat); ("nsync_run_once_impl", 5%nat); ("nsync_run_once", 1%nat);
+          ("nsync_run_once_arg", 1%nat); ("nsync_run_once_spin", 1%nat); ("nsync_run_once_arg_spin", 1%nat)] /\
+  (* note: the flag is set with release and read with acquire; a waiter of the note is woken with a release store *)
+  has_rel (order_at sites_note_c "note_notify_child" 2 Kstore "notified.n") = true /\
+  Forall (fun n => has_acq (order_at sites_note_c "nsync_note_notified_deadline_" n Kload "notified.n") = true) [1%nat; 2%nat] /\
+  has_rel (order_at sites_note_c "note_notify_child" 3 Kstore "waiting.nw") = true /\
+  (* counter: the decrement is an acq_rel RMW, waiters' and readers' loads are acquire; the waiter is woken through
+     ATM_STORE_REL (&nw->waiting, 0) (counter.c:76) / ATM_LOAD_ACQ (&nw->waiting) (counter.c:136) *)
+  has_rel (order_at sites_counter_c "nsync_counter_add" 3 Kcas "value.c") = true /\
+  has_acq (order_at sites_counter_c "nsync_counter_add" 3 Kcas "value.c") = true /\
+  Forall (fun f => has_acq (order_at sites_counter_c (fst f) (snd f) Kload "value.c") = true)
+         [("nsync_counter_add", 1%nat); ("nsync_counter_value", 1%nat); ("nsync_counter_wait", 1%nat);
+          ("counter_ready_time", 2%nat); ("counter_enqueue", 1%nat); ("counter_dequeue", 1%nat)] /\
+  has_rel (order_at sites_counter_c "nsync_counter_add" 5 Kstore "waiting.nw") = true /\
+  has_acq (order_at sites_counter_c "counter_dequeue" 2 Kload "waiting.nw") = true /\
+  (* mutex wake-ups: nsync_mu_unlock_slow_ stores waiting := 0 with release; the sleeper in nsync_mu_lock_slow_ and in
+     nsync_mu_wait_with_deadline re-checks it with acquire *)
+  has_rel (order_at sites_mu_c "nsync_mu_unlock_slow_" 7 Kstore "waiting.nsync_dll_nsync_waiter_.p") = true /\
+  has_acq (order_at sites_mu_c "nsync_mu_lock_slow_" 5 Kload "waiting.nw.w") = true /\
+  has_acq (order_at sites_mu_wait_c "nsync_mu_wait_with_deadline" 6 Kload "waiting.nw.w") = true /\
+  (* signal / broadcast: wake_waiters stores waiting := 0 with release (cv.c:148), the waiter in
+     nsync_cv_wait_with_deadline_generic loads it with acquire (cv.c:248); when wake_waiters transfers waiters to the
+     mutex queue instead, it takes the mutex' spinlock with an acquire CAS and gives it up with a release CAS *)
+  has_rel (order_at sites_cv_c "wake_waiters" 6 Kstore "waiting.p_nw") = true /\
+  has_acq (order_at sites_cv_c "nsync_cv_wait_with_deadline_generic" 5 Kload "waiting.nw.w") = true /\
+  has_acq (order_at sites_cv_c "wake_waiters" 2 Kcas "word.pmu") = true /\
+  has_rel (order_at sites_cv_c "wake_waiters" 4 Kcas "word.pmu") = true /\
+  (* mu_wait.c: the CAS that enqueues the caller and releases the mutex "by blocking"; nsync_mu_unlock_without_wakeup;
+     the re-acquisition after a timeout / cancellation and its two back-out / downgrade stores *)
+  has_rel (order_at sites_mu_wait_c "nsync_mu_wait_with_deadline" 5 Kcas "word.mu") = true /\
+  Forall (fun n => has_rel (order_at sites_mu_wait_c "nsync_mu_unlock_without_wakeup" n Kcas "word.mu") = true) [1%nat; 3%nat] /\
+  has_acq (order_at sites_mu_wait_c "mu_try_acquire_after_timeout_or_cancel" 2 Kcas "word.mu") = true /\
+  Forall (fun n => has_rel (order_at sites_mu_wait_c "mu_try_acquire_after_timeout_or_cancel" n Kstore "word.mu") = true) [8%nat; 9%nat].
 Proof. exact publication_orders. Qed.
 
-(* the inventory these statements talk about IS the one regenerated from /repo now *)
+(* the hand-written inventory Model/SitesExpected.v (used by other properties' pins) IS the one regenerated from /repo
+   now; none of the statements above depends on it *)
 Theorem C03_inventory_current :
   map site_sig sites_mu_c = expected_mu_c /\ map site_sig sites_cv_c = expected_cv_c /\
   map site_sig sites_mu_wait_c = expected_mu_wait_c /\ map site_sig sites_once_c = expected_once_c /\
@@ -59,5 +129,6 @@ Theorem C03_inventory_current :
   map site_sig sites_nsync_semaphore_futex_c = expected_nsync_semaphore_futex_c.
 Proof. exact inventory_current. Qed.
 
-Print Assumptions C03_mutex_handoff. Print Assumptions C03_mutex_orders.
+Print Assumptions C03_mutex_handoff. Print Assumptions C03_mutex_handoff_example.
+Print Assumptions C03_mutex_orders. Print Assumptions C03_mutex_word_writes.
 Print Assumptions C03_publication_orders. Print Assumptions C03_inventory_current.
